@@ -74,6 +74,10 @@ func twoCalls(cs *fw.Case, routine string, t elemT, fine, coarse string, inputs 
 			class = "sort-permutation"
 		}
 		cs.Cover("fine-class:" + routine + "/" + fine)
+		for site := range lastSites {
+			// which loop the options routed the call to (e.g. Symmetric -> qrAlgorithmSymmetric.outer)
+			cs.Cover("route:" + routine + "/" + firstOpt(of) + "->" + site)
+		}
 		if routine == "qrAlgorithm" || routine == "eigensystem" || routine == "svd" || routine == "msqrt" || routine == "msqrtInv" {
 			if v.Skip == "" && A.C > 0 {
 				cs.C.CoverMax("max:sweeps-per-row(x100):"+routine, 100*lastTicks/int64(A.C))
@@ -88,6 +92,15 @@ func twoCalls(cs *fw.Case, routine string, t elemT, fine, coarse string, inputs 
 			}
 		}
 	}
+}
+
+func firstOpt(o string) string {
+	for i := 0; i < len(o); i++ {
+		if o[i] == '+' {
+			return o[:i]
+		}
+	}
+	return o
 }
 
 func Run(c *fw.Ctx) {
